@@ -174,7 +174,18 @@ def random_route(ctx, rng, tensors, modes=("fused", "blockwise", "auto"), p_pret
         rng.shuffle(shared)
         mode = rng.choice(modes)
         step = {"pair": (i, j), "mode": mode, "shared": list(shared)}
-        if len(shared) >= 2 and rng.random() < p_split:
+        if len(shared) == 1 and 1 <= a.x.ndim <= 2 and 1 <= b.x.ndim <= 2 and a.x.ndim + b.x.ndim >= 3 and rng.random() < 0.4:
+            # the same pair through the matrix-product operator (vector @ matrix, matrix @ vector,
+            # matrix @ matrix; vector @ vector returns a bare number and loses the labels)
+            nm = shared[0]
+            a = named.transpose(ctx, a, [n_ for n_ in a.names if n_ != nm] + [nm])
+            b = named.transpose(ctx, b, [nm] + [n_ for n_ in b.names if n_ != nm])
+            o = ctx.call(lambda: a.x @ b.x)
+            if not o.ok:
+                raise Raised("matmul", o)
+            z = N(o.value, [n_ for n_ in a.names if n_ != nm] + [n_ for n_ in b.names if n_ != nm])
+            step["matmul"] = True
+        elif len(shared) >= 2 and rng.random() < p_split:
             # one (or some) bond(s) by tensordot, the rest by single-array einsum afterwards
             k = rng.randint(1, len(shared) - 1)
             now, later = shared[:k], shared[k:]
